@@ -151,6 +151,141 @@ def _replay_static(n):
         return None
 
 
+class _StubDistrax:
+    """records what GMMEstimator.get_dist builds (attribute names as in distrax, so the same scenario reads real distrax objects in the replay)"""
+
+    class Normal:
+        def __init__(self, loc, scale):
+            self.loc, self.scale = loc, scale
+
+    class Categorical:
+        def __init__(self, probs):
+            self.probs = probs
+
+    class MixtureSameFamily:
+        def __init__(self, mixture_distribution, components_distribution):
+            self.mixture_distribution, self.components_distribution = mixture_distribution, components_distribution
+
+    class Deterministic:
+        def __init__(self, loc):
+            self.loc = loc
+
+
+class _StubBase:
+    class StaticDist:
+        def __init__(self, dist):
+            self.dist = dist
+
+        @classmethod
+        def create(cls, dist):
+            return cls(dist)
+
+
+def scen_estimator(cfg):
+    """GMMEstimator._rescale / get_dist on an estimator whose fitted (normalised) parameters, data mean and data std are solver variables:
+    the exported mixture is the fitted one mapped back to the units of the data (loc -> loc*std + mean, log-scale -> log-scale + log std), its
+    weights are the renormalised weights of the heaviest components (a lightest prefix with total weight < 1 - percentile is dropped), they
+    sum to one and all scales are positive; constant data gives a deterministic distribution at the data mean."""
+    K = cfg["K"]
+
+    def scenario(V):
+        import numpy as onp
+        from rex.gmm_estimator import GMMEstimator
+        from vlib import pysym
+        from vlib.pysym import SymBool, T, zb
+
+        est = object.__new__(GMMEstimator)
+        est.name, est.verbose, est.threshold = "verif", False, 1e-7
+        if cfg.get("deterministic"):
+            mu = V.anyreal("mean", lo=0, hi=1)
+
+            class _Data:
+                def mean(self, dtype=None):
+                    return mu if V.symbolic else onp.float32(mu)
+
+            est.is_deterministic, est.data, est.final_state_norm = True, _Data(), None
+            d = est.get_dist().dist
+            ok = (type(d).__name__ == "Deterministic")
+            return {"constant data: a deterministic distribution at the data mean": ok and (SymBool(T(d.loc) == T(mu)) if V.symbolic else abs(float(d.loc) - mu) <= 1e-6 * max(1.0, abs(mu)))}
+        std = V.anyreal("std", lo=Fraction(1, 10**7), hi=10)
+        mean = V.anyreal("mean", lo=0, hi=10)
+        lw = [V.anyreal(f"lw{i}", lo=-4, hi=4) for i in range(K)]
+        m = [V.anyreal(f"m{i}", lo=-4, hi=4) for i in range(K)]
+        ls = [V.anyreal(f"ls{i}", lo=-4, hi=2) for i in range(K)]
+        pct = cfg["percentile"]
+        if V.symbolic:
+            arr = lambda xs: onp.array(xs, dtype=object)
+            E, L = (lambda x: pysym.ObjNumpy._s(x).exp()), (lambda x: pysym.ObjNumpy._s(x).log())
+        else:
+            import jax.numpy as jnp
+            arr = lambda xs: jnp.asarray(xs, jnp.float32)
+            E, L = (lambda x: float(onp.exp(onp.float64(x)))), (lambda x: float(onp.log(onp.float64(x))))
+        sc0 = (lambda x: onp.array(x, dtype=object)) if V.symbolic else (lambda x: x)  # 0-d object arrays: numpy broadcasting applies
+        est.is_deterministic, est._std, est._mean, est.final_state_norm = False, sc0(std), sc0(mean), "state"
+        est.adam_get_params = lambda st: (arr(lw), arr([0] * K), arr(m), arr(ls))
+        d = est.get_dist(pct).dist
+        w = list(d.mixture_distribution.probs)
+        loc, sc = list(d.components_distribution.loc), list(d.components_distribution.scale)
+        # the specification, computed independently (ordering facts are decided on this path)
+        e = [E(x) for x in lw]
+        tot = sum(e[1:], e[0])
+        wn = [x / tot for x in e]
+        order = sorted(range(K), key=lambda i: 0)  # placeholder, replaced below
+        idx = []
+        for i in range(K):  # stable ascending by weight
+            k = len(idx)
+            while k > 0 and bool(wn[i] < wn[idx[k - 1]]):
+                k -= 1
+            idx.insert(k, i)
+        cum, drop = 0, 0
+        for j in idx:
+            if bool(cum + wn[j] < 1 - pct):
+                drop, cum = drop + 1, cum + wn[j]
+            else:
+                break
+        keep = idx[drop:]
+        ktot = sum([wn[j] for j in keep[1:]], wn[keep[0]])
+        res = {"_std": std, "_kept": len(keep)}
+        if len(w) != len(keep):
+            res["the exported mixture keeps the heaviest components: a lightest prefix with total weight < 1 - percentile is dropped, at least one stays"] = False
+            return res
+        res["the exported mixture keeps the heaviest components: a lightest prefix with total weight < 1 - percentile is dropped, at least one stays"] = len(keep) >= 1
+        if V.symbolic:
+            eqs_w = [T(w[i]) == T(wn[j] / ktot) for i, j in enumerate(keep)]
+            eqs_l = [T(loc[i]) == T(m[j] * std + mean) for i, j in enumerate(keep)]
+            eqs_s = [T(sc[i]) == T(E(ls[j] + L(std))) for i, j in enumerate(keep)]
+            res["weights are the renormalised weights of the kept components, each positive, summing to one"] = SymBool(z3.And(*eqs_w, *[T(x) > 0 for x in w], z3.Sum([T(x) for x in w]) == 1))
+            res["locations are in the units of the data: loc_j * std + mean"] = SymBool(z3.And(*eqs_l))
+            res["scales are in the units of the data (log-scale shifted by log std) and positive"] = SymBool(z3.And(*eqs_s, *[T(x) > 0 for x in sc]))
+            if K >= 2:
+                res["twin:a component is pruned"] = len(keep) < K
+            res["twin:microsecond-level jitter (std < 1e-5)"] = SymBool(T(std) < Fraction(1, 10**5))
+        else:
+            cl = lambda a, b: abs(float(a) - float(b)) <= 2e-4 * max(abs(float(b)), 1e-30) + 1e-30
+            res["weights are the renormalised weights of the kept components, each positive, summing to one"] = all(cl(w[i], wn[j] / ktot) for i, j in enumerate(keep)) and all(float(x) > 0 for x in w) and abs(sum(float(x) for x in w) - 1) <= 1e-5
+            res["locations are in the units of the data: loc_j * std + mean"] = all(abs(float(loc[i]) - (m[j] * std + mean)) <= 1e-5 * max(1.0, abs(m[j] * std + mean)) for i, j in enumerate(keep))
+            res["scales are in the units of the data (log-scale shifted by log std) and positive"] = all(cl(sc[i], E(ls[j] + L(std))) for i, j in enumerate(keep)) and all(float(x) > 0 for x in sc)
+        return res
+
+    return scenario
+
+
+def worker_estimator(cfg, tier):
+    import rex.gmm_estimator as G
+    from props.c03 import _to_obs
+    from vlib import pysym
+
+    res, stats = pysym.run_scenario(scen_estimator(cfg), [G], extra_patch={"rex.gmm_estimator": {"np": pysym.ObjNumpy(), "distrax": _StubDistrax, "base": _StubBase}},
+                                    timeout_ms=30000 if tier == "quick" else 120000, patch_names=())
+    keymap = {r["name"]: "estimator" for r in res}
+    whatmap = {r["name"]: f"GMMEstimator.get_dist/_rescale: {r['name']} -- violated" for r in res}
+    obs, stats = _to_obs(res, stats, cfg, "estimator", keymap, whatmap)
+    if obs:
+        obs[0].detail = {"stats": stats}
+        obs[0].queries += stats["queries"]
+    return obs
+
+
 def configs(tier):
     return [dict(which="static_sample", n=1), dict(which="static_sample", n=3), dict(which="trainable", min=0.0, max=0.03125),
             dict(which="trainable", min=0.001, max=0.0235), dict(which="deterministic_quantile"), dict(which="normal_quantile")]
@@ -167,10 +302,21 @@ def run(rep):
     rep.configs = cfgs
     rep.bounds = dict(sample_shapes=[1, 3])
     rep.assumptions = ["the underlying distribution returns arbitrary real samples as a function of its seed", "ndtri uninterpreted, axiom: strictly increasing",
-                       "RESTRICTED: mixture quantiles (numpy grid search over a distrax CDF), agreement of the Normal quantile with the CDF and the GMM estimator "
-                       "(an optimisation loop) are not encodable and not claimed; default expected delay = quantile(0.99) >= 0 is checked with C16's node harness"]
-    rep.stubs = ["jax.scipy.special.ndtri -> oracle callback during tracing of the Normal quantile"]
-    rep.add_all(pmap("props.c15", "worker", cfgs, rep.tier))
+                       "RESTRICTED: mixture quantiles (numpy grid search over a distrax CDF), agreement of the Normal quantile with the CDF and the fitting loop of the GMM estimator "
+                       "(an optimisation) are not encodable and not claimed; default expected delay = quantile(0.99) >= 0 is checked with C16's node harness",
+                       "GMM estimator: only the export path (_rescale, get_dist, normalize_weights) from arbitrary fitted parameters, data mean in [0,10], data std in [1e-7,10], "
+                       "K <= 2 (3) components; exp/log uninterpreted with the axiom exp > 0"]
+    rep.stubs = ["jax.scipy.special.ndtri -> oracle callback during tracing of the Normal quantile",
+                 "estimator: jax.numpy -> object-array stand-in (exp/log uninterpreted, argsort/maximum by solver-checked comparisons), distrax/StaticDist.create -> recorders, adam_get_params -> the symbolic parameters"]
+    obs = pmap("props.c15", "worker", cfgs, rep.tier)
+    from rex import gmm_estimator
+    rep.encode(gmm_estimator.GMMEstimator._rescale, gmm_estimator.GMMEstimator.get_dist, gmm_estimator.normalize_weights)
+    ecfg = [dict(K=2, percentile=0.99), dict(K=2, percentile=0.8), dict(K=1, percentile=0.99), dict(K=1, deterministic=True, percentile=0.99)]
+    if rep.tier == "thorough":
+        ecfg += [dict(K=3, percentile=0.9), dict(K=3, percentile=0.99)]
+    rep.configs = list(cfgs) + ecfg
+    obs += pmap("props.c15", "worker_estimator", ecfg, rep.tier)
+    rep.add_all(obs)
 
 
 def replay(rp):
